@@ -8,6 +8,7 @@
 -/
 import PgProofs.SymTyped
 import PgProofs.SymTypedSchema
+import PgProofs.SymTypedNested
 import PgGen.C03Tables
 namespace Pg.C03
 open Pg.Typing
@@ -519,6 +520,105 @@ example : (dictPrim envT false (fun _ => false) ⟨[Field.mk (.const "x") (.int 
     (.plain (.int (-1)))).2 = some .value := by rfl
 example : (dictPrim envT false (fun _ => false) ⟨[Field.mk (.const "x") (.int (some 0) none F0)], [("x", .int 1)]⟩ "q"
     (.plain (.int 1))).2 = some .key := by rfl
+
+/-! ## Nested key paths (`rebind({'z.y': v, 'w[0]': v})`) -/
+
+/-- A write through a key path of any length preserves the invariant of the root (and of every
+container on the way), whether it succeeds or is rejected: only the typed descendant that is
+written to validates the value, the ancestors are not re-validated — they stay fixed points of their
+specs nevertheless.  `hp`: the containers along the path satisfy `PathOK` (typed dicts / lists,
+not frozen — F185 —, idempotent field specs). -/
+theorem C03_path_write_preserve (env : Env) (pb : Val → Bool) (d : TDict) (k : String) (rest : List PKey)
+    (ins : Bool) (a : Val)
+    (hI : ∀ f ∈ d.fields, Idem env false f.value) (hM : ∀ f ∈ d.fields, MissingOK env false f.value)
+    (hp : rest ≠ [] → ∀ c fld, lookup d.kvs k = some c → getField env d.fields k = some fld →
+      PathOK env fld.value c rest)
+    (hc : ConformsD env false d) (hs : NoStaleMissing env false d) :
+    ConformsD env false (pathWrite env pb d k rest ins a).1 ∧
+      NoStaleMissing env false (pathWrite env pb d k rest ins a).1 ∧
+      (pathWrite env pb d k rest ins a).1.fields = d.fields := by
+  cases rest with
+  | nil =>
+    simp only [pathWrite]
+    have h1 := C03_dict_prim_preserve_aux env pb d k a hI hc
+    exact ⟨h1.1, dictPrim_nostale env pb d k a hM hs, h1.2⟩
+  | cons t ts =>
+    simp only [pathWrite]
+    cases hl : lookup d.kvs k with
+    | none => exact ⟨hc, hs, rfl⟩
+    | some c =>
+      cases hg : getField env d.fields k with
+      | none => exact ⟨hc, hs, rfl⟩
+      | some fld =>
+        simp only []
+        cases hn : nestedSet env pb fld.value c (t :: ts) ins a with
+        | error e => exact ⟨hc, hs, rfl⟩
+        | ok c' =>
+          simp only []
+          have hcfix : apply env fld.value false c = .ok c := by
+            obtain ⟨f', hf', hx⟩ := hc.1 (k, c) (lookup_mem d.kvs k c hl)
+            simp only at hf' hx
+            rw [hg] at hf'; injection hf' with hf'; subst hf'; exact hx
+          have hfix' := nestedSet_fix env pb (t :: ts) fld.value c ins a c' (hp (by simp) c fld hl hg) hcfix hn
+          have hnm := nestedSet_container env pb (t :: ts) fld.value c ins a c' hn
+          obtain ⟨h1, h2⟩ := replace_entry_conforms env d.fields d.kvs k fld c' hg hfix' hnm hc hs
+          exact ⟨h1, h2, by first | rfl | trivial⟩
+
+/-- A rejected path write stores nothing. -/
+theorem C03_path_write_reject (env : Env) (pb : Val → Bool) (d : TDict) (k : String) (rest : List PKey)
+    (ins : Bool) (a : Val) (e : E) (h : (pathWrite env pb d k rest ins a).2 = some e) :
+    (pathWrite env pb d k rest ins a).1 = d := by
+  cases rest with
+  | nil =>
+    simp only [pathWrite] at h ⊢
+    exact C03_dict_prim_reject env false pb d k (.plain a) e h
+  | cons t ts =>
+    simp only [pathWrite] at h ⊢
+    cases hl : lookup d.kvs k with
+    | none => rfl
+    | some c =>
+      cases hg : getField env d.fields k with
+      | none => rfl
+      | some fld =>
+        simp only [hl, hg] at h ⊢
+        cases hn : nestedSet env pb fld.value c (t :: ts) ins a with
+        | error e' => rfl
+        | ok c' => simp [hn] at h
+
+/-- FULL STATEMENT without the path condition. -/
+def C03_path_write_Full : Prop :=
+  ∀ (env : Env) (pb : Val → Bool) (d : TDict) (k : String) (rest : List PKey) (ins : Bool) (a : Val),
+    ConformsD env false d → ConformsD env false (pathWrite env pb d k rest ins a).1
+
+/-- F185 (replayed on the real code): with `('fl', List(Int()).freeze([1, 2]))`,
+`d.rebind({'fl[0]': 7})` succeeds and the frozen field no longer holds its frozen value. -/
+theorem C03_path_write_counterexample : ¬ C03_path_write_Full := by
+  intro h
+  let fl : Spec := .list (.int none none F0) 0 none ⟨false, .list [.int 1, .int 2], true⟩
+  have hc : ConformsD envT false ⟨[Field.mk (.const "fl") fl], [("fl", .list [.int 1, .int 2])]⟩ := by
+    refine ⟨?_, ?_⟩
+    · intro kv hkv
+      simp only [List.mem_singleton] at hkv
+      subst hkv
+      exact ⟨_, rfl, rfl⟩
+    · intro k hk
+      simp only [constKeys, List.mem_singleton] at hk
+      subst hk; rfl
+  have hres : (pathWrite envT (fun _ => false) ⟨[Field.mk (.const "fl") fl], [("fl", .list [.int 1, .int 2])]⟩
+      "fl" [.idx 0] false (.int 7)).1.kvs = [("fl", .list [.int 7, .int 2])] := by rfl
+  have := (h envT (fun _ => false) _ "fl" [.idx 0] false (.int 7) hc).1 ("fl", .list [.int 7, .int 2]) (by
+    rw [hres]; exact List.mem_singleton.2 rfl)
+  obtain ⟨f, hf, hap⟩ := this
+  simp only [getField, List.find?_cons, Field.key, beq_self_eq_true] at hf
+  injection hf with hf
+  subst hf
+  have e : apply envT (Field.mk (KeySpec.const "fl") fl).value false ("fl", Val.list [.int 7, .int 2]).snd
+      = .error .value := by rfl
+  rw [e] at hap
+  cases hap
+
+example : PathOK envT (.list (.int (some 0) none F0) 0 (some 3) F0) (.list [.int 1]) [.idx 0] :=
+  ⟨rfl, idem_of_frag envT false _ (by rfl), fun h => absurd rfl h⟩
 
 /-! ## What a conforming member looks like -/
 
